@@ -18,3 +18,8 @@ open LhasaV.Props.C06
 #print axioms LhasaV.Props.C06.dir_entry_for_existing_dir_ignored
 #print axioms LhasaV.Props.C06.option_letters_spec
 #print axioms LhasaV.Props.C06.command_letter_spec
+#print axioms LhasaV.Props.C06.extract_reproduces_tree
+#print axioms LhasaV.Props.C06.extract_reproduces_tree_packed
+#print axioms LhasaV.Props.C06.archive_denotes_tree
+#print axioms LhasaV.Props.C06.sample_tree_with_files_extracts
+#print axioms LhasaV.Props.C06.extract_models_agree
